@@ -28,6 +28,12 @@ def base_cfg(todo_p, todo_q, todo_s, msg):
             # the dependant has a typed getter: a dependency that is still a placeholder surfaces as the error from every getter form
             "u": {"constructor": "fx.NewB", "arguments": ["@s", "%q%"], "type": "*fx.Obj", "getter": "GetU", "must_getter": True},
             "n": {"constructor": "fx.NewC", "arguments": ["%p%", "%c%"], "scope": "non_shared"}}
+    if todo_s:
+        # a second placeholder next to the first (each gets its own stub); nothing depends on it
+        svcs["s2"] = {"todo": True}
+    # a parameter may be NAMED like a built-in function: `%todo%` is a reference to it, `%todo()%` a call of the function
+    params["todo"] = '%todo("set me")%' if todo_p else "plain-todo"
+    params["reftodo"] = "%todo%"
     # a message may contain anything a Go string literal can: parentheses, commas
     params["pp"] = '%todo("ask ops (see wiki/secrets, section 2)")%' if (todo_p or todo_q) else "plain"
     # a parameter that is nothing but another parameter: it must follow an override of its target as long as it was not evaluated
@@ -35,7 +41,7 @@ def base_cfg(todo_p, todo_q, todo_s, msg):
     return {"meta": {"pkg": "gen", "imports": {"fx": gen.FX}, "functions": {"myfn": "fx.Fn1"}}, "parameters": params, "services": svcs}
 
 
-OPS = [["param", "p"], ["param", "q"], ["param", "c"], ["param", "pp"], ["param", "al"], ["get", "s"], ["get", "u"], ["get", "n"],
+OPS = [["param", "reftodo"], ["ovparam", "todo", {"k": "str", "v": "T2"}], ["param", "p"], ["param", "q"], ["param", "c"], ["param", "pp"], ["param", "al"], ["get", "s"], ["get", "u"], ["get", "n"],
        ["call", "GetUInContext", "c1"], ["call", "MustGetU"],
        ["ovparam", "p", {"k": "str", "v": "P2"}], ["ovparam", "q", {"k": "int", "v": 7}], ["ovservice", "s", {"k": "obj", "v": "S2"}]]
 
@@ -77,7 +83,7 @@ def run(ctx, maxlen=None):
                 if len(corr_fail) < 10:
                     corr_fail.append({"op": "rt:history", "files": files, "history": oa, "at": x[0], "impl": x[1], "model": x[2]})
         # direct oracle
-        ovp, ovs, al_done, u_built = {}, False, False, False
+        ovp, ovs, al_done, u_built, rt_done = {}, False, False, False, False
         c0 = impl[0]["ok"].get("probe/fx.Fn1", 0)
         c1 = impl[-1]["ok"].get("probe/fx.Fn1", 0)
         uses_c = sum(1 for o in oa if o in (["param", "c"], ["get", "n"]))
@@ -89,6 +95,15 @@ def run(ctx, maxlen=None):
                 ovp[o[1]] = o[2]["v"]
             elif o[0] == "ovservice":
                 ovs = True
+            elif o[0] == "param" and o[1] == "reftodo":
+                # a reference to the parameter NAMED todo: follows its override as long as it has not been evaluated successfully
+                if "todo" in ovp and not rt_done:
+                    if r.get("ok", {}).get("v") != ovp["todo"]:
+                        violations.append({"sig": "override-not-visible", "what": "GetParam(reftodo) (reftodo is %%todo%%, a reference to the parameter named todo) after OverrideParam(todo) returns %r" % (r,), "files": files, "history": oa})
+                elif "todo" not in ovp and str(cfg["parameters"]["todo"]).startswith("%todo("):
+                    if "err" not in r or "set me" not in r["err"]:
+                        violations.append({"sig": "todo-param-no-error", "what": "GetParam(reftodo) whose target is a todo parameter with the message 'set me': %r" % (r,), "files": files, "history": oa})
+                rt_done = rt_done or "ok" in r
             elif o[0] == "param" and o[1] == "al":
                 # the alias of p: once p is overridden and the alias has not been evaluated successfully before, it is the override
                 if "p" in ovp and not al_done:
